@@ -43,8 +43,9 @@ def jobs(tier):
         if tier == "quick" and not (a in CHEAP and b in CHEAP) and not ((a in CHEAP or b in CHEAP) and "INV_S" in (a, b)) \
                 and (a, b) not in (("S3", "S2"), ("S2", "S3")):
             continue
-        if tier != "quick" and a not in CHEAP[1:] and b not in CHEAP[1:] and a == b and a != "S2":
-            continue   # thorough: two fully symbolic entries of DIFFERENT kinds (same-kind pairs add nothing but cost ~110 s x 6 shards)
+        HEAVY_OK = {("T3", "S3"), ("S3", "T3"), ("T3", "L3"), ("L3", "T3"), ("T2", "S3"), ("S3", "T2"), ("S3", "S2"), ("S2", "S3")}
+        if tier != "quick" and a not in CHEAP[1:] and b not in CHEAP[1:] and (a, b) != ("S2", "S2") and (a, b) not in HEAVY_OK:
+            continue   # thorough: eight ordered pairs of two fully symbolic entries (each ~110 s x 6 shards); the rest adds cost, not coverage
         if a not in CHEAP[1:] and b not in CHEAP[1:] and (a != "S2" or b != "S2"):
             # two fully symbolic valid entries: ~1300 paths; split over 6 shards
             for i in range(6):
@@ -54,7 +55,7 @@ def jobs(tier):
     if tier != "quick":
         for shape in itertools.product(KINDS, repeat=3):
             cheap = sum(1 for x in shape if x in CHEAP)
-            if cheap >= 2 and len(set(shape)) >= 2 and "S2" in shape and sum(1 for x in shape if x.startswith("INV")) >= 1:
+            if cheap == 3 and len(set(shape)) >= 2 and shape.count("S2") == 1 and shape[1] != "S2":
                 js.append(dict(kind="bulk", shape=list(shape)))
     return js
 
